@@ -512,7 +512,7 @@ def rule_g4(F):
             if vp is not generic["call"] and not any(contains_node(t, generic["call"]) for t in tried):
                 r.bad(CHECK_ROTO_TYPE, "arm %s|propagation" % v, relfile(b.file), ln, "the result of the shared checker is neither the arm's value nor `?`-propagated")
             continue
-        elif not names:
+        elif not names and helper is None:
             r.bad(CHECK_ROTO_TYPE, "arm %s|name" % v, relfile(b.file), arm["line"], "arm does not compare the Roto type's name with the global `%s`" % v)
         for (op, lit, scope, node) in names:
             if lit != v:
